@@ -20,7 +20,7 @@ for pid in sorted(claims):
       "quick_cmd": f"./check {pid}",
       "thorough_cmd": f"./check {pid} --tier thorough",
       "evidence_file": f"/verif/evidence/{pid}.json",
-      "replay_cmd_template": "cat {path}",
+      "replay_cmd_template": "./replay {path}",
       "engine": "gowp",
       "level_claimed": {"category": c.get("category","proof"), "text": c["text"], "design_ref": f"DESIGN.md §5 {pid}"},
       "level_note": c["note"],
